@@ -112,10 +112,22 @@ class Rule_CV07(BaseRule):
             lift_nodes = list(dict.fromkeys(leading + trailing))
             fixes = []
             if lift_nodes:
-                fixes.append(LintFix.create_before(parent, list(leading)))
-                fixes.append(LintFix.create_after(parent, list(trailing)))
+                # NOTE: Only one side may have anything to lift, and a create
+                # fix must have an edit.
+                if leading:
+                    fixes.append(LintFix.create_before(parent, list(leading)))
+                if trailing:
+                    fixes.append(LintFix.create_after(parent, list(trailing)))
                 fixes.extend([LintFix.delete(segment) for segment in lift_nodes])
-                filtered_children = filtered_children[len(leading) : -len(trailing)]
+                # NOTE: Not `-len(trailing)`, which is `-0` without trailing nodes.
+                filtered_children = filtered_children[
+                    len(leading) : len(filtered_children) - len(trailing)
+                ]
+
+            if not filtered_children:
+                # Nothing but whitespace and comments between the brackets:
+                # there is no statement to unwrap (and a fix needs an edit).
+                continue
 
             fixes.append(
                 LintFix.replace(
